@@ -65,8 +65,7 @@ Clauses(e) ==
      \* the environment of the dialogue is the I/O as the route of calls left it
      /\ Check(tid, l, "H.route", "", (l = 1 \/ T[l - 1].sess # e.sess) => (e.route # <<>> /\ sc = EnvScript(e.route)))
      /\ Check(tid, l, "H.route.inter", "", SetsInter(e.route) => qq.interactive = EnvInter(e.route))
-     /\ Check(tid, l, "H.object", "", e.reask = (\E j \in 1..(l - 1) : T[j].obj = e.obj)
-                                      /\ \A j \in 1..(l - 1) : T[j].obj = e.obj => T[j].q = qq)
+     /\ Check(tid, l, "H.object", "", e.reask = (\E j \in 1..(l - 1) : T[j].obj = e.obj))
      /\ Check(tid, l, "H.sane", "", HSane(sc, st, o))
      /\ Check(tid, l, "P.terminates", TermKey(o), PTerminates(o))
      /\ Check(tid, l, "P.noninteractive", "", PNonInteractive(qq, o))
@@ -84,6 +83,7 @@ Clauses(e) ==
      /\ Note(tid, l, "A.prompts", o.prompts = obs.prompts)
      /\ Note(tid, l, "A.stdout", o.outBytes = 0)
      /\ Note(tid, l, "A.object", o.maxAfter = qq.maxAtt /\ ObjectIntact)
+     /\ Note(tid, l, "A.aliasing", o.listSame)          \* the caller's own choice list is as the caller left it
 
 \* the next question starts where the real execution stopped reading
 TCompare ==
